@@ -6,6 +6,7 @@
 mod conv;
 mod r#gen;
 mod lin;
+mod rewrite;
 mod text;
 mod lp;
 mod simplex;
@@ -148,6 +149,24 @@ fn main() {
             for c in &cases {
                 let mut evs = vec![];
                 simplex::lp_path_events(c, &mut evs);
+                for ev in evs {
+                    writeln!(out, "{}", ev).unwrap();
+                }
+            }
+        }
+        // rewrite --cases F : simplify / flatten on generated trees (C10)
+        "rewrite" => {
+            let cases = read_cases(&arg(&args, "--cases").expect("--cases"));
+            for c in &cases {
+                writeln!(out, "{}", rewrite::rewrite_event(c)).unwrap();
+            }
+        }
+        // twins --cases F : two spellings of one model through the text front end (C10)
+        "twins" => {
+            let cases = read_cases(&arg(&args, "--cases").expect("--cases"));
+            for c in &cases {
+                let mut evs = vec![];
+                text::twin_events(c, &mut evs);
                 for ev in evs {
                     writeln!(out, "{}", ev).unwrap();
                 }
